@@ -19,9 +19,10 @@ Local Open Scope N_scope.
 (** the grammar theorem itself, for any table set *)
 Theorem C03_accepted_iff_wellformed :
   forall V (T : ptab V) ph ts n,
-    parse T ph ts = Ok n <->
-    exists s, W T 0 s /\ (opn s = true -> pt_trigger T KEof = false) /\ print T s = ts /\ desugar T ph s = n.
-Proof. intros. apply accepted_iff_wellformed. Qed.
+    orb (pt_numnum T) (pt_trigger T KNum) = true ->
+    (parse T ph ts = Ok n <->
+     exists s, W T 0 s /\ (opn s = true -> pt_trigger T KEof = false) /\ print T s = ts /\ desugar T ph s = n).
+Proof. intros. now apply accepted_iff_wellformed. Qed.
 Print Assumptions C03_accepted_iff_wellformed.
 
 Theorem C03_f64_ok_implies_wellformed :
@@ -32,7 +33,7 @@ Print Assumptions C03_f64_ok_implies_wellformed.
 Theorem C03_f64_wellformed_evaluates :
   forall (L : libm) s p sx, W pt_f64 0 sx -> tokens_of lt_f64 conv_f64 s = Some (print pt_f64 sx) ->
     run_f64 L s p = eval_f64 L (desugar pt_f64 p sx).
-Proof. intros L. exact (wellformed_evaluates lt_f64 conv_f64 pt_f64 (eval_f64 L) eq_refl). Qed.
+Proof. intros L. exact (wellformed_evaluates lt_f64 conv_f64 pt_f64 (eval_f64 L) eq_refl eq_refl). Qed.
 Print Assumptions C03_f64_wellformed_evaluates.
 
 Theorem C03_i64_ok_implies_wellformed :
@@ -43,7 +44,7 @@ Print Assumptions C03_i64_ok_implies_wellformed.
 Theorem C03_i64_wellformed_evaluates :
   forall (L : libm) s p sx, W pt_i64 0 sx -> tokens_of lt_i64 conv_i64 s = Some (print pt_i64 sx) ->
     run_i64 L s p = eval_i64 L (desugar pt_i64 p sx).
-Proof. intros L. exact (wellformed_evaluates lt_i64 conv_i64 pt_i64 (eval_i64 L) eq_refl). Qed.
+Proof. intros L. exact (wellformed_evaluates lt_i64 conv_i64 pt_i64 (eval_i64 L) eq_refl eq_refl). Qed.
 Print Assumptions C03_i64_wellformed_evaluates.
 
 Theorem C03_number_ok_implies_wellformed :
@@ -54,7 +55,7 @@ Print Assumptions C03_number_ok_implies_wellformed.
 Theorem C03_number_wellformed_evaluates :
   forall (L : libm) s p sx, W pt_number 0 sx -> tokens_of lt_number conv_num s = Some (print pt_number sx) ->
     run_num L s p = eval_num L (desugar pt_number p sx).
-Proof. intros L. exact (wellformed_evaluates lt_number conv_num pt_number (eval_num L) eq_refl). Qed.
+Proof. intros L. exact (wellformed_evaluates lt_number conv_num pt_number (eval_num L) eq_refl eq_refl). Qed.
 Print Assumptions C03_number_wellformed_evaluates.
 
 Theorem C03_complex_ok_implies_wellformed :
@@ -65,7 +66,7 @@ Print Assumptions C03_complex_ok_implies_wellformed.
 Theorem C03_complex_wellformed_evaluates :
   forall (C : cpxlib) s p sx, W pt_complex 0 sx -> tokens_of lt_complex conv_cpx s = Some (print pt_complex sx) ->
     run_cpx C s p = eval_cpx C (desugar pt_complex p sx).
-Proof. intros C. exact (wellformed_evaluates lt_complex conv_cpx pt_complex (eval_cpx C) eq_refl). Qed.
+Proof. intros C. exact (wellformed_evaluates lt_complex conv_cpx pt_complex (eval_cpx C) eq_refl eq_refl). Qed.
 Print Assumptions C03_complex_wellformed_evaluates.
 
 Theorem C03_decimal_ok_implies_wellformed :
@@ -76,7 +77,7 @@ Print Assumptions C03_decimal_ok_implies_wellformed.
 Theorem C03_decimal_wellformed_evaluates :
   forall (D : declib) s p sx, W pt_decimal 0 sx -> tokens_of lt_decimal (conv_dec D) s = Some (print pt_decimal sx) ->
     run_dec D s p = eval_dec D (desugar pt_decimal p sx).
-Proof. intros D. exact (wellformed_evaluates lt_decimal (conv_dec D) pt_decimal (eval_dec D) eq_refl). Qed.
+Proof. intros D. exact (wellformed_evaluates lt_decimal (conv_dec D) pt_decimal (eval_dec D) eq_refl eq_refl). Qed.
 Print Assumptions C03_decimal_wellformed_evaluates.
 
 (** a lexing failure anywhere in the input is an error of the call *)
